@@ -43,6 +43,7 @@ type Solver struct {
 	recent  []string
 	logw    io.Writer
 	timeout int
+	seq     int
 }
 
 func NewSolver(bin string, timeoutMs int, logw io.Writer) (*Solver, error) {
@@ -147,10 +148,37 @@ func (s *Solver) readSexp() (string, error) {
 	}
 }
 
+// exchange sends a command that produces exactly one answer, followed by an echo marker, and reads up to the marker.
+// Anything the solver printed besides the one answer (an "(error" for an earlier assert or definition, which
+// produce no output when they succeed) is returned as stray output: the caller must treat the query as inconclusive.
+func (s *Solver) exchange(cmd string) (ans string, stray []string, err error) {
+	s.seq++
+	marker := fmt.Sprintf("@@%d", s.seq)
+	s.send(cmd)
+	s.send("(echo \"" + marker + "\")")
+	var got []string
+	for {
+		a, e := s.readSexp()
+		if e != nil {
+			return "", nil, e
+		}
+		if strings.Trim(a, "\"") == marker {
+			break
+		}
+		got = append(got, a)
+	}
+	if len(got) == 0 {
+		return "", nil, fmt.Errorf("solver gave no answer to %s", cmd)
+	}
+	return got[len(got)-1], got[:len(got)-1], nil
+}
+
 func (s *Solver) CheckSat() SatResult {
 	t0 := time.Now()
-	s.send("(check-sat)")
-	ans, err := s.readSexp()
+	ans, stray, err := s.exchange("(check-sat)")
+	if err == nil && len(stray) > 0 {
+		panic(engineErr("solver error before check-sat: %s", strings.Join(stray, " ")))
+	}
 	dt := time.Since(t0)
 	s.Time += dt
 	s.Queries++
@@ -201,10 +229,12 @@ func (s *Solver) GetValues(vars []*Term) (map[string]uint64, error) {
 			sb.WriteString(" ")
 		}
 		sb.WriteString("))")
-		s.send(sb.String())
-		ans, err := s.readSexp()
+		ans, stray, err := s.exchange(sb.String())
 		if err != nil {
 			return nil, err
+		}
+		if len(stray) > 0 {
+			return nil, fmt.Errorf("solver: %s", strings.Join(stray, " "))
 		}
 		if strings.HasPrefix(ans, "(error") {
 			return nil, fmt.Errorf("solver: %s", ans)
